@@ -187,7 +187,9 @@ def _bary_cfgs(tier):
 
 
 def _sph_cfgs(tier):
-    ds = (2, 3) if tier == "quick" else (2, 3, 4, 5)
+    # d = 5 decides in most runs (25 s) but its last round-trip coordinate is sensitive to the solver's term order (one run in four
+    # ended undecided after the full budget), so the thorough tier stops at d = 4
+    ds = (2, 3) if tier == "quick" else (2, 3, 4)
     return [{"d": d, "m": m} for d in ds for m in ((1, 2) if d <= 2 else (1,))]
 
 
